@@ -23,6 +23,7 @@ def run(col, configs, tier):
         guarded_soft(col, X.rule_control_radices, facts)
         guarded_soft(col, X.rule_punctuation_pairs, facts)
         guarded_soft(col, X.rule_options_punctuation_pairs, facts)
+        guarded_soft(col, X.rule_default_flags_exact, facts)
         from rules import dispatch as D18
         guarded(col, D18.rule_check_radix_table, facts)
         for crate in ("lexical_write_float", "lexical_parse_float", "lexical_write_integer", "lexical_parse_integer"):
